@@ -1,5 +1,6 @@
 import QR.Proofs.C02Tables
 import QR.Proofs.Interleave
+import QR.Proofs.RSDiv
 /-
 C02 - every error-correction block is a codeword of the ISO Reed-Solomon code; block structure = ISO Table 9.
 -/
@@ -46,5 +47,40 @@ theorem C02_block_structure (v : Nat) (hv : v < 40) (l : Spec.Level) (buf : List
       (∀ p ∈ bs, p.1 ≠ [] ∧ Model.ecOfBlock p.1 (Spec.eccLen (v + 1) l) = .ok p.2 ∧ p.2.length = Spec.eccLen (v + 1) l) := by
   obtain ⟨bs, cw, _, h2, _, h4, _, _, _, h8, h9, h10⟩ := QR.Interleave.createBytes_blocksOf' v hv l buf hlen hbytes hec
   exact ⟨bs, cw, h2, h4, h9, h10, fun p hp => ⟨(h8 p hp).1, (h8 p hp).2.2.1, (h8 p hp).2.2.2⟩⟩
+
+/-- **C02 (per block)**: for every block shape of Table 9 and EVERY data content (non-empty list of bytes - including
+    all-zero and leading-zero blocks, where `Polynomial.__mod__` used to fail before the D1 repair) the error-correction
+    codewords are computed, have the right length, and data ++ ec is a codeword of the ISO Reed-Solomon code: all e
+    syndromes S_i = c(α^i) vanish in GF(256) -/
+theorem C02_codeword (e : Nat) (he : e ∈ eccLengths) (dc : List Nat) (hne : dc ≠ []) (hb : ∀ c ∈ dc, c < 256) :
+    ∃ ec, Model.ecOfBlock dc e = .ok ec ∧ ec.length = e ∧ (∀ c ∈ ec, c < 256) ∧ Spec.isCodeword e (dc ++ ec) = true :=
+  QR.Proofs.ecOfBlock_codeword e he dc hne hb
+
+/-- **C02 (per symbol)**: for all 160 (version, level) pairs and every content of the data codewords, `create_bytes`
+    succeeds, yields exactly the ISO total number of codewords, and the reader's de-interleaving (ISO Table 9) returns
+    blocks whose data parts concatenate to the input and each of which is a codeword of the ISO code for that pair -/
+theorem C02_blocks (v : Nat) (hv : v < 40) (l : Spec.Level) (buf : List Nat)
+    (hlen : buf.length = Spec.dataCodewords (v + 1) l) (hbytes : ∀ x ∈ buf, x < 256) :
+    ∃ cw, Model.createBytes buf (Spec.isoBlocks (v + 1) l) = .ok cw ∧
+      cw.length = Spec.totalCodewords (v + 1) ∧
+      (Spec.blocksOf (v + 1) l cw).flatMap (·.data) = buf ∧
+      ∀ b ∈ Spec.blocksOf (v + 1) l cw, Spec.isCodeword (Spec.eccLen (v + 1) l) (b.data ++ b.ec) = true := by
+  have hec : ∀ (dc : List Nat) (e : Nat), dc ≠ [] → (∀ x ∈ dc, x < 256) →
+      e ∈ [7, 10, 13, 15, 16, 17, 18, 20, 22, 24, 26, 28, 30] → ∃ ec, Model.ecOfBlock dc e = .ok ec ∧ ec.length = e := by
+    intro dc e hne hb he
+    obtain ⟨ec, h1, h2, _, _⟩ := QR.Proofs.ecOfBlock_codeword e he dc hne hb
+    exact ⟨ec, h1, h2⟩
+  obtain ⟨bs, cw, _, h2, _, h4, _, _, _, h8, h9, h10⟩ := QR.Interleave.createBytes_blocksOf' v hv l buf hlen hbytes hec
+  refine ⟨cw, h2, h4, h10, ?_⟩
+  intro b hb
+  rw [h9] at hb
+  obtain ⟨p, hp, rfl⟩ := List.mem_map.mp hb
+  obtain ⟨hne, hpb, hecp, _⟩ := h8 p hp
+  have hmem : Spec.eccLen (v + 1) l ∈ eccLengths := eccLengths_complete v hv l (by cases l <;> simp [allLevels])
+  obtain ⟨ec, h1, _, _, hcw⟩ := QR.Proofs.ecOfBlock_codeword _ hmem p.1 hne hpb
+  rw [hecp] at h1
+  injection h1 with h1
+  subst h1
+  exact hcw
 
 end QR.Props
